@@ -58,6 +58,7 @@ type inlSite struct {
 	file     *ast.File
 	filename string
 	fn       *ast.FuncDecl
+	next     ast.Stmt // the statement that follows stmt in its list, if any
 }
 
 func declKey(pkgPath string, fd *ast.FuncDecl) string {
@@ -140,7 +141,7 @@ func inlineNewHelpers(pkgs []*packages.Package, src func(string) []byte) (map[st
 					continue
 				}
 				key := declKey(p.PkgPath, fd)
-				if baselineFuncs[key] {
+				if baselineFuncs[key] || funcRenames[key] != "" {
 					continue
 				}
 				h := &inlHelper{key: key, decl: fd, file: f, filename: fname, obj: info.Defs[fd.Name], pkg: p, bad: inlinableDecl(fd)}
@@ -292,10 +293,14 @@ func findSites(info *types.Info, helpers map[types.Object]*inlHelper, f *ast.Fil
 		return nil, nil
 	}
 	visitList = func(list []ast.Stmt) {
-		for _, st := range list {
+		for li, st := range list {
+			var next ast.Stmt
+			if li+1 < len(list) {
+				next = list[li+1]
+			}
 			if c, h := simple(st); c != nil {
 				supported[c] = true
-				*sites = append(*sites, &inlSite{h: h, call: c, stmt: st, inner: st, file: f, filename: fname, fn: fd})
+				*sites = append(*sites, &inlSite{h: h, call: c, stmt: st, inner: st, file: f, filename: fname, fn: fd, next: next})
 			}
 			if iff, ok := st.(*ast.IfStmt); ok && iff.Init != nil {
 				if c, h := simple(iff.Init); c != nil {
@@ -420,11 +425,276 @@ func genInline(p *packages.Package, s *inlSite, n int, src func(string) []byte) 
 	pre := fmt.Sprintf("inl%d", n)
 	var b bytes.Buffer
 	nres := sig.Results().Len()
+
+	// How a `return es` of the helper is rewritten depends on what the call site does with the results.  When the
+	// site hands them straight to an error handler that leaves the function, the handler is replicated at every
+	// return of the helper, so that error paths leave directly instead of meeting the success paths at a join
+	// (which is what the code looked like before the helper was extracted):
+	//   direct   `return h(..)`                              return es               -> return es
+	//   handler  `if LHS := h(..); COND { ..; return }`      return es               -> if LHS := es; COND { ..; return }
+	//   assign   `LHS = h(..)` followed by `if X != nil {..; return }`  return es    -> LHS = es; if X != nil { ..; return }
+	//   temps    everything else: result temporaries, read after the inlined body
+	terminating := func(blk *ast.BlockStmt) bool {
+		if blk == nil || len(blk.List) == 0 {
+			return false
+		}
+		// the block is replicated inside the inlined body, where break/continue/goto would bind differently
+		branches := false
+		ast.Inspect(blk, func(nd ast.Node) bool {
+			if _, ok := nd.(*ast.BranchStmt); ok {
+				branches = true
+			}
+			return true
+		})
+		if branches {
+			return false
+		}
+		switch x := blk.List[len(blk.List)-1].(type) {
+		case *ast.ReturnStmt:
+			return true
+		case *ast.ExprStmt:
+			if c, ok := x.X.(*ast.CallExpr); ok {
+				if id, ok := c.Fun.(*ast.Ident); ok && id.Name == "panic" {
+					return true
+				}
+			}
+		}
+		return false
+	}
+	mode := "temps"
+	// retFmt gives the text that replaces `return es`; parts are the individual result expressions when the return
+	// lists them one by one (nil otherwise), exprs the corresponding syntax
+	var retFmt func(es string, parts []string, exprs []ast.Expr) string
+	var predecl string
+	// names used by the replicated handler: helper locals of the same name are renamed
+	handlerNames := map[string]bool{}
+	noteNames := func(nodes ...ast.Node) {
+		for _, nd := range nodes {
+			if nd == nil {
+				continue
+			}
+			ast.Inspect(nd, func(x ast.Node) bool {
+				if id, ok := x.(*ast.Ident); ok && id.Name != "_" {
+					handlerNames[id.Name] = true
+				}
+				return true
+			})
+		}
+	}
+	// testedNil: cond is `X != nil` for an identifier X
+	testedOf := func(cond ast.Expr) *ast.Ident {
+		be, ok := cond.(*ast.BinaryExpr)
+		if !ok || be.Op != token.NEQ {
+			return nil
+		}
+		if id, ok := be.X.(*ast.Ident); ok {
+			if nl, ok := be.Y.(*ast.Ident); ok && nl.Name == "nil" && info.Uses[nl] == types.Universe.Lookup("nil") {
+				return id
+			}
+		}
+		return nil
+	}
+	// nilClassOf: "nil" for the literal nil, "nonnil" for error constructors and registered sentinel errors (the same
+	// policy as provablyNonNil applies to values), "" otherwise
+	var guardedNonNil func(e ast.Expr) bool
+	nilClassOf := func(e ast.Expr) string {
+		e = ast.Unparen(e)
+		if guardedNonNil != nil && guardedNonNil(e) {
+			return "nonnil"
+		}
+		switch x := e.(type) {
+		case *ast.Ident:
+			if x.Name == "nil" && info.Uses[x] == types.Universe.Lookup("nil") {
+				return "nil"
+			}
+			if v, ok := info.Uses[x].(*types.Var); ok && v.Parent() == v.Pkg().Scope() && strings.HasPrefix(v.Name(), "Err") {
+				return "nonnil"
+			}
+		case *ast.SelectorExpr:
+			if v, ok := info.Uses[x.Sel].(*types.Var); ok && v.Pkg() != nil && v.Parent() == v.Pkg().Scope() && strings.HasPrefix(v.Name(), "Err") {
+				return "nonnil"
+			}
+		case *ast.CallExpr:
+			var fo types.Object
+			switch f := ast.Unparen(x.Fun).(type) {
+			case *ast.Ident:
+				fo = info.Uses[f]
+			case *ast.SelectorExpr:
+				fo = info.Uses[f.Sel]
+			}
+			if fn, ok := fo.(*types.Func); ok && fn.Pkg() != nil {
+				switch fn.Pkg().Path() + "." + fn.Name() {
+				case "fmt.Errorf", "errors.New", "google.golang.org/grpc/status.Errorf", "google.golang.org/grpc/status.Error",
+					"cosmossdk.io/errors.Wrap", "cosmossdk.io/errors.Wrapf", "cosmossdk.io/errors.Register":
+					return "nonnil"
+				}
+			}
+		}
+		return ""
+	}
+	typedParts := func(parts []string, exprs []ast.Expr) string {
+		// an untyped nil cannot initialise a new variable: give it the result type
+		out := make([]string, len(parts))
+		for i, pt := range parts {
+			out[i] = pt
+			if nilClassOf(exprs[i]) == "nil" {
+				out[i] = "(" + ts(sig.Results().At(i).Type()) + ")(nil)"
+			}
+		}
+		return strings.Join(out, ", ")
+	}
+	blanks := func(n int) string { return strings.TrimSuffix(strings.Repeat("_, ", n), ", ") }
+	switch st := s.stmt.(type) {
+	case *ast.ReturnStmt:
+		if s.stmt == s.inner && nres > 0 {
+			mode = "direct"
+			retFmt = func(es string, _ []string, _ []ast.Expr) string { return "return " + es }
+		}
+	case *ast.IfStmt:
+		if as, ok := s.inner.(*ast.AssignStmt); ok && as.Tok == token.DEFINE && st.Else == nil && terminating(st.Body) && nres > 0 && len(as.Lhs) == nres {
+			lhsOK := true
+			var lhsNames []string
+			for _, l := range as.Lhs {
+				id, ok := l.(*ast.Ident)
+				if !ok {
+					lhsOK = false
+					break
+				}
+				lhsNames = append(lhsNames, id.Name)
+			}
+			if lhsOK {
+				noteNames(st.Body, st.Cond)
+				lhs := strings.Join(lhsNames, ", ")
+				cond := textOf(csrc, st.Cond.Pos(), st.Cond.End())
+				body := textOf(csrc, st.Body.Pos(), st.Body.End())
+				ti := -1
+				if t := testedOf(st.Cond); t != nil {
+					for i, nm := range lhsNames {
+						if nm == t.Name {
+							ti = i
+						}
+					}
+				}
+				mode = "handler"
+				retFmt = func(es string, parts []string, exprs []ast.Expr) string {
+					if parts != nil && ti >= 0 {
+						switch nilClassOf(exprs[ti]) {
+						case "nil":
+							return "{ " + blanks(nres) + " = " + typedParts(parts, exprs) + "; break " + pre + "L }"
+						case "nonnil":
+							use := ""
+							for _, nm := range lhsNames {
+								if nm != "_" {
+									use += "_ = " + nm + "; "
+								}
+							}
+							return "{ " + lhs + " := " + typedParts(parts, exprs) + "; " + use + body + " }"
+						}
+					}
+					if parts != nil {
+						es = typedParts(parts, exprs)
+					}
+					return "{ if " + lhs + " := " + es + "; " + cond + " " + body + "\nbreak " + pre + "L }"
+				}
+			}
+		}
+	case *ast.AssignStmt:
+		if nx, ok := s.next.(*ast.IfStmt); ok && s.stmt == s.inner && nx.Init == nil && nx.Else == nil && terminating(nx.Body) && nres > 0 && len(st.Lhs) == nres {
+			tested := testedOf(nx.Cond)
+			lhsOK := tested != nil
+			ti := -1
+			var decl bytes.Buffer
+			var lhsNames []string
+			for i, l := range st.Lhs {
+				id, ok := l.(*ast.Ident)
+				if !ok {
+					lhsOK = false
+					break
+				}
+				lhsNames = append(lhsNames, id.Name)
+				if tested != nil && id.Name == tested.Name {
+					ti = i
+				}
+				if st.Tok == token.DEFINE && id.Name != "_" && info.Defs[id] != nil {
+					fmt.Fprintf(&decl, "var %s %s\n_ = %s\n", id.Name, ts(sig.Results().At(i).Type()), id.Name)
+				}
+			}
+			if lhsOK && ti >= 0 {
+				noteNames(nx.Body)
+				for _, nm := range lhsNames {
+					handlerNames[nm] = true
+				}
+				lhs := strings.Join(lhsNames, ", ")
+				body := textOf(csrc, nx.Body.Pos(), nx.Body.End())
+				mode = "assign"
+				predecl = decl.String()
+				retFmt = func(es string, parts []string, exprs []ast.Expr) string {
+					if parts != nil {
+						switch nilClassOf(exprs[ti]) {
+						case "nil":
+							return "{ " + lhs + " = " + es + "; break " + pre + "L }"
+						case "nonnil":
+							return "{ " + lhs + " = " + es + "; " + body + " }"
+						}
+					}
+					return "{ " + lhs + " = " + es + "; if " + tested.Name + " != nil " + body + "\nbreak " + pre + "L }"
+				}
+			}
+		}
+	}
+	// helper-local objects whose names the replicated handler uses are renamed
+	rename := map[types.Object]string{}
+	ast.Inspect(h.decl, func(nd ast.Node) bool {
+		if id, ok := nd.(*ast.Ident); ok {
+			if o := info.Defs[id]; o != nil && handlerNames[id.Name] && o != h.obj {
+				rename[o] = pre + "_" + id.Name
+			}
+		}
+		return true
+	})
+	type rep struct {
+		a, e int
+		text string
+	}
+	var idReps []rep
+	ast.Inspect(h.decl.Body, func(nd ast.Node) bool {
+		if id, ok := nd.(*ast.Ident); ok {
+			o := info.Defs[id]
+			if o == nil {
+				o = info.Uses[id]
+			}
+			if nn, ok := rename[o]; ok && o != nil {
+				idReps = append(idReps, rep{off(id.Pos()), off(id.End()), nn})
+			}
+		}
+		return true
+	})
+	sort.Slice(idReps, func(i, j int) bool { return idReps[i].a > idReps[j].a })
+	// hText: helper source text of [a, e) with the renames applied
+	hText := func(a, e token.Pos) string {
+		oa, oe := off(a), off(e)
+		t := append([]byte{}, hsrc[oa:oe]...)
+		for _, r := range idReps { // descending offsets
+			if r.a >= oa && r.e <= oe {
+				t = append(append(append([]byte{}, t[:r.a-oa]...), []byte(r.text)...), t[r.e-oa:]...)
+			}
+		}
+		return string(t)
+	}
+	renamed := func(name string, o types.Object) string {
+		if nn, ok := rename[o]; ok {
+			return nn
+		}
+		return name
+	}
+	b.WriteString(predecl)
 	var rnames []string
 	for i := 0; i < nres; i++ {
 		rn := fmt.Sprintf("%sR%d", pre, i)
 		rnames = append(rnames, rn)
-		fmt.Fprintf(&b, "var %s %s\n_ = %s\n", rn, ts(sig.Results().At(i).Type()), rn)
+		if mode == "temps" {
+			fmt.Fprintf(&b, "var %s %s\n_ = %s\n", rn, ts(sig.Results().At(i).Type()), rn)
+		}
 	}
 	// receiver and arguments, evaluated once, in order
 	type bind struct{ name, typ, tmp string }
@@ -447,7 +717,8 @@ func genInline(p *packages.Package, s *inlSite, n int, src func(string) []byte) 
 		}
 		name := "_"
 		if len(h.decl.Recv.List) == 1 && len(h.decl.Recv.List[0].Names) == 1 {
-			name = h.decl.Recv.List[0].Names[0].Name
+			rid := h.decl.Recv.List[0].Names[0]
+			name = renamed(rid.Name, info.Defs[rid])
 		}
 		tmp := pre + "A0"
 		fmt.Fprintf(&b, "var %s %s = %s\n_ = %s\n", tmp, ts(rt), expr, tmp)
@@ -460,7 +731,7 @@ func genInline(p *packages.Package, s *inlSite, n int, src func(string) []byte) 
 				pnames = append(pnames, "_")
 			}
 			for _, nm := range f.Names {
-				pnames = append(pnames, nm.Name)
+				pnames = append(pnames, renamed(nm.Name, info.Defs[nm]))
 			}
 		}
 	}
@@ -473,7 +744,11 @@ func genInline(p *packages.Package, s *inlSite, n int, src func(string) []byte) 
 		fmt.Fprintf(&b, "var %s %s = %s\n_ = %s\n", tmp, t, textOf(csrc, a.Pos(), a.End()), tmp)
 		binds = append(binds, bind{pnames[i], t, tmp})
 	}
-	fmt.Fprintf(&b, "%sL:\nfor {\n", pre)
+	if mode == "direct" {
+		b.WriteString("{\n")
+	} else {
+		fmt.Fprintf(&b, "%sL:\nfor {\n", pre)
+	}
 	for _, bd := range binds {
 		if bd.name == "_" {
 			continue
@@ -485,7 +760,7 @@ func genInline(p *packages.Package, s *inlSite, n int, src func(string) []byte) 
 	if h.decl.Type.Results != nil {
 		for _, f := range h.decl.Type.Results.List {
 			for _, nm := range f.Names {
-				named = append(named, nm.Name)
+				named = append(named, renamed(nm.Name, info.Defs[nm]))
 			}
 		}
 	}
@@ -500,43 +775,115 @@ func genInline(p *packages.Package, s *inlSite, n int, src func(string) []byte) 
 		fmt.Fprintf(&b, "var %s %s\n_ = %s\n", nm, ts(sig.Results().At(i).Type()), nm)
 	}
 	// body with returns rewritten (returns inside function literals belong to the literal)
-	type rep struct {
-		a, e int
-		text string
-	}
 	var reps []rep
 	var bad string
 	var walk func(nd ast.Node) bool
+	var stack []ast.Node
+	// guardedNonNil: the return sits in the then-branch of `if X != nil` of the helper, X is not assigned in that
+	// branch, and e is X: the value is not nil
+	guardedNonNil = func(e ast.Expr) bool {
+		id, ok := ast.Unparen(e).(*ast.Ident)
+		if !ok {
+			return false
+		}
+		obj := info.Uses[id]
+		if obj == nil {
+			return false
+		}
+		for i := len(stack) - 1; i > 0; i-- {
+			blk, ok := stack[i].(*ast.BlockStmt)
+			if !ok {
+				continue
+			}
+			iff, ok := stack[i-1].(*ast.IfStmt)
+			if !ok || iff.Body != blk {
+				continue
+			}
+			t := testedOf(iff.Cond)
+			if t == nil || info.Uses[t] != obj {
+				continue
+			}
+			assigned := false
+			ast.Inspect(blk, func(nd ast.Node) bool {
+				switch y := nd.(type) {
+				case *ast.AssignStmt:
+					for _, l := range y.Lhs {
+						if li, ok := l.(*ast.Ident); ok && (info.Uses[li] == obj || info.Defs[li] == obj) {
+							assigned = true
+						}
+					}
+				case *ast.UnaryExpr:
+					if y.Op == token.AND {
+						if li, ok := ast.Unparen(y.X).(*ast.Ident); ok && info.Uses[li] == obj {
+							assigned = true
+						}
+					}
+				case *ast.FuncLit:
+					assigned = true // a closure may write it
+				}
+				return true
+			})
+			return !assigned
+		}
+		return false
+	}
 	walk = func(nd ast.Node) bool {
+		if nd == nil {
+			stack = stack[:len(stack)-1]
+			return true
+		}
 		switch x := nd.(type) {
 		case *ast.FuncLit:
 			return false
 		case *ast.ReturnStmt:
-			var t string
+			var t, es string
+			var parts []string
+			var exprs []ast.Expr
 			switch {
 			case nres == 0:
 				t = "break " + pre + "L"
 			case len(x.Results) == nres:
-				var es []string
 				for _, r := range x.Results {
-					es = append(es, textOf(hsrc, r.Pos(), r.End()))
+					parts = append(parts, hText(r.Pos(), r.End()))
+					exprs = append(exprs, r)
 				}
-				t = "{ " + strings.Join(rnames, ", ") + " = " + strings.Join(es, ", ") + "; break " + pre + "L }"
+				es = strings.Join(parts, ", ")
 			case len(x.Results) == 1:
-				t = "{ " + strings.Join(rnames, ", ") + " = " + textOf(hsrc, x.Results[0].Pos(), x.Results[0].End()) + "; break " + pre + "L }"
+				es = hText(x.Results[0].Pos(), x.Results[0].End())
 			case len(x.Results) == 0 && len(named) == nres:
-				t = "{ " + strings.Join(rnames, ", ") + " = " + strings.Join(named, ", ") + "; break " + pre + "L }"
+				es = strings.Join(named, ", ")
 			default:
 				bad = "return arity"
+			}
+			if es != "" {
+				if retFmt != nil {
+					t = retFmt(es, parts, exprs)
+				} else {
+					t = "{ " + strings.Join(rnames, ", ") + " = " + es + "; break " + pre + "L }"
+				}
 			}
 			reps = append(reps, rep{off(x.Pos()), off(x.End()), t})
 			return false
 		}
+		stack = append(stack, nd)
 		return true
 	}
 	ast.Inspect(h.decl.Body, walk)
 	if bad != "" {
 		return nil, fmt.Errorf("%s", bad)
+	}
+	// renames outside the rewritten returns (those inside were applied by hText)
+	for _, ir := range idReps {
+		inside := false
+		for _, r := range reps {
+			if ir.a >= r.a && ir.e <= r.e {
+				inside = true
+				break
+			}
+		}
+		if !inside {
+			reps = append(reps, ir)
+		}
 	}
 	ba, be := off(h.decl.Body.Lbrace)+1, off(h.decl.Body.Rbrace)
 	body := append([]byte{}, hsrc[ba:be]...)
@@ -546,11 +893,21 @@ func genInline(p *packages.Package, s *inlSite, n int, src func(string) []byte) 
 	}
 	b.Write(body)
 	if nres > 0 && len(named) == nres {
-		fmt.Fprintf(&b, "\n%s = %s", strings.Join(rnames, ", "), strings.Join(named, ", "))
+		// falling off the end of a function with named results cannot happen (the compiler demands a return)
+		_ = named
 	}
-	fmt.Fprintf(&b, "\nbreak %sL\n}\n", pre)
+	if mode == "direct" {
+		b.WriteString("\n}\n")
+	} else {
+		fmt.Fprintf(&b, "\nbreak %sL\n}\n", pre)
+	}
 	if qualFail != "" {
 		return nil, fmt.Errorf("type of package %s is not importable by name in the calling file", qualFail)
+	}
+	switch mode {
+	case "direct", "handler", "assign":
+		// the statement itself is gone: its work is done at every return of the inlined body
+		return b.Bytes(), nil
 	}
 	// the original statement with the call replaced by the result temporaries
 	ca, ce := off(s.call.Pos()), off(s.call.End())
@@ -591,4 +948,153 @@ func readSource(overlay map[string][]byte) func(string) []byte {
 		}
 		return b
 	}
+}
+
+// detectRenames: reviewed functions that are gone, matched with new unexported functions of the same package and
+// receiver whose parameter types (receiver first) are identical.  Only unique matches in both directions count.
+func detectRenames(pkgs []*packages.Package) map[string]string {
+	type cand struct{ key, sig string }
+	current := map[string]bool{}
+	var added []cand
+	for _, p := range pkgs {
+		if !smPkgs[p.PkgPath] || p.TypesInfo == nil {
+			continue
+		}
+		for _, f := range p.Syntax {
+			for _, d := range f.Decls {
+				fd, ok := d.(*ast.FuncDecl)
+				if !ok || fd.Body == nil {
+					continue
+				}
+				key := declKey(p.PkgPath, fd)
+				current[key] = true
+				if baselineFuncs[key] || ast.IsExported(fd.Name.Name) {
+					continue
+				}
+				obj, _ := p.TypesInfo.Defs[fd.Name].(*types.Func)
+				if obj == nil {
+					continue
+				}
+				sig := obj.Type().(*types.Signature)
+				var parts []string
+				if sig.Recv() != nil {
+					parts = append(parts, typeKey(sig.Recv().Type())+ptrMark(sig.Recv().Type()))
+				}
+				for i := 0; i < sig.Params().Len(); i++ {
+					t := sig.Params().At(i).Type()
+					parts = append(parts, typeKey(t)+ptrMark(t))
+				}
+				added = append(added, cand{key, strings.Join(parts, "|")})
+			}
+		}
+	}
+	prefixOf := func(k string) string { return k[:strings.LastIndex(k, ".")+1] }
+	out := map[string]string{}
+	usedNew := map[string]int{}
+	match := map[string][]string{}
+	for old := range baselineFuncs {
+		if current[old] {
+			continue
+		}
+		bp, ok := baselineParams[old]
+		if !ok {
+			continue
+		}
+		var parts []string
+		for _, q := range bp {
+			parts = append(parts, q[1])
+		}
+		sig := strings.Join(parts, "|")
+		for _, c := range added {
+			if prefixOf(c.key) == prefixOf(old) && c.sig == sig {
+				match[old] = append(match[old], c.key)
+				usedNew[c.key]++
+			}
+		}
+	}
+	for old, cs := range match {
+		if len(cs) == 1 && usedNew[cs[0]] == 1 {
+			out[cs[0]] = old
+		}
+	}
+	// several functions of one signature renamed together (slashRedelegations/slashUndelegations): pair them by name
+	// similarity when one pairing is strictly better than every other
+	groups := map[string][]string{} // sorted new keys -> old keys
+	for old, cs := range match {
+		if len(cs) < 2 {
+			continue
+		}
+		sorted := append([]string{}, cs...)
+		sort.Strings(sorted)
+		gk := strings.Join(sorted, ",")
+		groups[gk] = append(groups[gk], old)
+	}
+	for gk, olds := range groups {
+		news := strings.Split(gk, ",")
+		if len(olds) != len(news) || len(news) > 4 {
+			continue
+		}
+		ok := true
+		for _, n := range news {
+			if usedNew[n] != len(olds) {
+				ok = false
+			}
+		}
+		if !ok {
+			continue
+		}
+		sort.Strings(olds)
+		base := func(k string) string { return k[strings.LastIndex(k, ".")+1:] }
+		best, second := -1, -1
+		var bestPerm []int
+		perm := make([]int, len(news))
+		used := make([]bool, len(news))
+		var rec func(i, score int)
+		rec = func(i, score int) {
+			if i == len(olds) {
+				if score > best {
+					second = best
+					best = score
+					bestPerm = append([]int{}, perm...)
+				} else if score > second {
+					second = score
+				}
+				return
+			}
+			for j := range news {
+				if !used[j] {
+					used[j] = true
+					perm[i] = j
+					rec(i+1, score+lcsLen(base(olds[i]), base(news[j])))
+					used[j] = false
+				}
+			}
+		}
+		rec(0, 0)
+		if best > second && bestPerm != nil {
+			for i, j := range bestPerm {
+				out[news[j]] = olds[i]
+			}
+		}
+	}
+	return out
+}
+
+// lcsLen: length of the longest common subsequence of two names.
+func lcsLen(a, b string) int {
+	prev := make([]int, len(b)+1)
+	for i := 1; i <= len(a); i++ {
+		cur := make([]int, len(b)+1)
+		for j := 1; j <= len(b); j++ {
+			if a[i-1] == b[j-1] {
+				cur[j] = prev[j-1] + 1
+			} else if prev[j] >= cur[j-1] {
+				cur[j] = prev[j]
+			} else {
+				cur[j] = cur[j-1]
+			}
+		}
+		prev = cur
+	}
+	return prev[len(b)]
 }
